@@ -37,6 +37,18 @@ def histograms(rng, tier):
         for i in range(29): d[i] = fib[i + 2 + shift]
         d[29] = 1
         add("rare-258-and-farthest-distance-%d" % shift, ll, d)
+    # literal alphabets with a gap of exactly g unused symbols (the subset builder leaves them without a code, and the stored header run-length
+    # encodes the zero lengths: 3, 10/11, 138/139 and multiples are where the repeat codes change over), with ordinary length / distance counts
+    for g in (3, 10, 11, 12, 137, 138, 139, 140, 148, 149, 276):
+        for where in ("below-eob", "middle", "start"):
+            if g > 250 - 20: continue
+            ll = [0] * 286; d = [0] * 30
+            used = list(range(256 - g - 40, 256 - g)) if where == "below-eob" else (list(range(10, 10 + 20)) + list(range(10 + 20 + g, min(256, 10 + 20 + g + 20)))) if where == "middle" else list(range(g, min(256, g + 40)))
+            for i_ in used: ll[i_] = 50 + (i_ * 7) % 90
+            ll[256] = 10
+            for i_ in range(257, 286): ll[i_] = 20 + i_ % 11
+            for i_ in range(30): d[i_] = 15 + i_ % 7
+            add("literal-gap-%d-%s" % (g, where), ll, d)
     for i in range(24 if tier == "quick" else 120):
         k = rng.choice([2, 5, 30, 286]); sh = rng.choice([0, 8, 30, 43])
         ll = [0] * 286
